@@ -91,7 +91,7 @@ def check_type(ctx, F, cfg, path, spec, lossy_fns, side="requests", P="C01"):
 def run(ctx):
     spec = json.load(open(os.path.join(VERIF, "spec", "ctap2_messages.json")))
     cmds = json.load(open(os.path.join(VERIF, "spec", "commands.json")))
-    lossy = spec["lossy_decoders"]
+    lossy = dict(spec["lossy_decoders"])
     ctx.explanation = ("Table agreement between the decoder tables read from the derive-generated visit_map / visit_str bodies (typed HIR, all 9 configurations) and the "
                        "independently written parameter tables of CTAP 2.1/2.2 (spec/ctap2_messages.json): key -> field, required-ness, CBOR shape of the decoded type, duplicate "
                        "detection, unknown-index rejection, lossy-decoder wiring, every field built from exactly one key; plus the command switch (shared rule with C11). "
@@ -101,6 +101,10 @@ def run(ctx):
     ctx.assumptions = ["public field names identify parameters (renaming one is an API break)", "serde: missing_field() yields None for Option members"]
     for cfg, F in ctx.facts.items():
         n_idx = n_txt = 0
+        # the documented lossy decoders by role (C13 decides what each role does); renaming / moving the helper keeps the role
+        from . import c13
+        t_w, s_w = c13.names(F)[:2]
+        lossy = dict(spec["lossy_decoders"], truncate=t_w, skip_if_too_long=s_w)
         for path, s in spec["requests"].items():
             n = check_type(ctx, F, cfg, path, s, lossy)
             if s["kind"] == "indexed":
